@@ -36,6 +36,8 @@ class ExtProbe:
 
 _MD = {
     "decl": [{"metadata_type": "add_method_type_info", "type_string": "xAOD::Jet", "method_name": "pt", "return_type": "int"}],
+    "decldef": [{"metadata_type": "add_method_type_info", "type_string": "xAOD::TruthParticle", "method_name": "pt", "return_type": "int"},
+                {"metadata_type": "add_method_type_info", "type_string": "xAOD::TruthParticle", "method_name": "parent", "return_type": "int"}],
     "enum": [{"metadata_type": "define_enum", "namespace": "xAOD.Jet", "name": "Color", "values": ["Red", "Blue"]}],
     "block": [{"metadata_type": "inject_code", "name": "leak_block", "body_includes": ["leak_body.h"], "header_includes": ["leak_header.h"],
                "private_members": ["int m_leak;"], "instance_initialization": ["m_leak(1)"], "ctor_lines": ["leak_ctor();"],
@@ -49,11 +51,11 @@ _BAD_MD = {"metadata_type": "no_such_metadata_type_vp"}
 _COLL = {"atlas": ("Jets", "xAOD::Jet"), "cms_aod": ("Muons", "reco::Muon"), "cms_miniaod": ("Muons", "pat::Muon")}
 
 
-def _query(backend, md_list, body="j.pt()", bank='"bk1"'):
+def _query(backend, md_list, body="j.pt()", bank='"bk1"', coll=None):
     src = 'EventDataset("vp")'
     for m in reversed(md_list):
         src = "MetaData(%s, %r)" % (src, m)
-    return 'Select(%s, lambda e: e.%s(%s).Select(lambda j: %s))' % (src, _COLL[backend][0], bank, body)
+    return 'Select(%s, lambda e: e.%s(%s).Select(lambda j: %s))' % (src, coll or _COLL[backend][0], bank, body)
 
 
 def _run_op(op, execs, outdir):
@@ -79,7 +81,7 @@ def _run_op(op, execs, outdir):
     return res["outcome"]
 
 
-PROBES = ["pt_same", "pt_new", "enum_same", "blocks_same", "cms_new"]
+PROBES = ["pt_same", "pt_new", "enum_same", "blocks_same", "cms_new", "truth_same", "truth_new"]
 
 
 def _run_probe(probe, execs, outdir):
@@ -94,6 +96,11 @@ def _run_probe(probe, execs, outdir):
         md = [{"metadata_type": "inject_code", "name": "probe_block", "body_includes": ["probe_body.h"], "ctor_lines": ["probe_ctor();"]},
               {"metadata_type": "add_job_script", "name": "probe_script", "script": ["probe_job_option()"]}]
         exe, backend, src = execs["same"], "atlas", _query("atlas", md)
+    elif probe in ("truth_same", "truth_new"):
+        # a class with built-in default declarations: an undeclared method and a default-declared one
+        exe, backend = (execs["same"] if probe == "truth_same" else None), "atlas"
+        src = ('Select(EventDataset("vp"), lambda e: (e.TruthParticles("bk1").Select(lambda j: j.pt()), '
+               'e.TruthParticles("bk1").Select(lambda j: j.parent().pt())))')
     elif probe == "cms_new":
         exe, backend, src = None, "cms_aod", _query("cms_aod", [])
     else:
